@@ -956,6 +956,15 @@ pub fn child_main(args: &Args) -> ! {
     // pristine observation (must not fail: harness error otherwise)
     write_files(&case_dir, &names, &pristine_bytes);
     let pristine_dump = observe(&pristine_bytes, mode == Mode::C05, false);
+    // what a container that was opened (and verified) on the pristine files reads
+    let pristine_held_dump = {
+        let mut d = Dump::default();
+        if let Ok(c) = jubako::reader::Container::new(&entry) {
+            let _ = c.check();
+            dump::dump_opened(&c, &spec, &mut d);
+        }
+        d
+    };
 
     for i in lo..hi {
         proc::child::begin(i);
@@ -1019,6 +1028,9 @@ pub fn child_main(args: &Args) -> ! {
             6 => "renamed-over-times-kept",
             _ => "written",
         };
+        // (C05/C06, in-place delivery) a container opened and verified before the alteration and
+        // read only after it: whatever it answers then is what was written, or an error
+        let mut held_container: Option<jubako::reader::Container> = None;
         if delivery == "written" || files.iter().any(|b| b.as_slice() == simcore::fault::REMOVED) {
             write_files(&case_dir, &names, &files);
         } else {
@@ -1037,6 +1049,12 @@ pub fn child_main(args: &Args) -> ! {
                 }
                 _ => {
                     let _ = dump::dump_container(&entry, &spec);
+                    if delivery == "in-place-times-kept" {
+                        held_container = jubako::reader::Container::new(&entry).ok();
+                        if let Some(c) = &held_container {
+                            let _ = c.check();
+                        }
+                    }
                 }
             }
             for (n, b) in names.iter().zip(&files) {
@@ -1114,12 +1132,22 @@ pub fn child_main(args: &Args) -> ! {
                         diffs.retain(|x| !x.starts_with("file/"));
                     }
                 }
+                let mut held_asked = false;
+                if let (Some(c), false) = (&held_container, pack_copy) {
+                    let mut hd = Dump::default();
+                    dump::dump_opened(c, &spec, &mut hd);
+                    held_asked = true;
+                    for x in dump::structural_diff_opts(&pristine_held_dump, &hd, removed) {
+                        diffs.push(format!("container opened and verified before the alteration, read after it: {x}"));
+                    }
+                }
                 let nerr = d.0.iter().filter(|(_, l)| l.is_err()).count();
                 let changed = d != reference;
                 json!({
                     "fired": fired,
                     "moved_after_open": moved,
                     "delivery": delivery,
+                    "container_opened_before_read_after": held_asked,
                     "mmap_refused": env_faults.get("mmap").copied().unwrap_or(0),
                     "read_failed": env_faults.get("file_read").copied().unwrap_or(0),
                     "decoder_refused": env_faults.get("decoder_build").copied().unwrap_or(0),
@@ -1640,6 +1668,7 @@ pub fn parent_main(args: &Args, mode: Mode) -> ! {
                 ev.fired("environment:standard-error-unusable (EPIPE)", 1);
             }
             match rec["payload"]["delivery"].as_str() {
+                Some("in-place-times-kept") if rec["payload"]["container_opened_before_read_after"] == true => ev.fired("alteration-in-place-with-the-file-times-kept, after this process read the pristine file; a container opened and verified before it is read after it", 1),
                 Some("in-place-times-kept") => ev.fired("alteration-in-place-with-the-file-times-kept, after this process read the pristine file", 1),
                 Some("renamed-over-times-kept") => ev.fired("alteration-as-a-new-file-renamed-over-the-name-with-the-old-times, after this process read the pristine file", 1),
                 _ => {}
